@@ -41,10 +41,12 @@ def _c_block_statements(path, header, guard):
     text = c29._strip_comments(open(path).read())
     body = c29._function_body(text, header)
     stmts = c29._Stmts(c29._tokens(body)).all()
-    blocks = [s for s in stmts if s[0] == "if" and "".join(s[1]) == guard]
-    if len(blocks) != 1:
-        raise Untranslatable("%s: expected exactly one `if (%s)` block" % (header, guard))
-    return stmts, blocks[0][2]
+    flag = "dlobj->dl_auto_close" if "dlobj" in guard else "lib->l_auto_close"
+    forms = {guard: False, guard + "&&" + flag: True, flag + "&&" + guard: True}
+    blocks = [s for s in stmts if s[0] == "if" and "".join(s[1]) in forms]
+    if len(blocks) != 1 or len(blocks[0]) != 3:
+        raise Untranslatable("%s: expected exactly one `if (%s [&& auto_close])` block" % (header, guard))
+    return stmts, blocks[0][2], forms["".join(blocks[0][1])]
 
 
 def translate_close_paths(repo):
@@ -66,7 +68,7 @@ def translate_close_paths(repo):
             else:
                 raise Untranslatable("__cffi_close__: statement outside the subset: %s" % src)
         # backend: dl_close_lib
-        _, blk = _c_block_statements(os.path.join(repo, "src", "c", "_cffi_backend.c"),
+        _, blk, backend_guard_auto = _c_block_statements(os.path.join(repo, "src", "c", "_cffi_backend.c"),
                                      "static PyObject *dl_close_lib(DynLibObject *dlobj, PyObject *no_args)",
                                      "dlobj->dl_handle!=NULL")
         backend = []
@@ -79,7 +81,7 @@ def translate_close_paths(repo):
             else:
                 raise Untranslatable("dl_close_lib: statement outside the subset: %r" % (st,))
         # out-of-line: ffi_dlclose
-        allst, blk = _c_block_statements(os.path.join(repo, "src", "c", "cdlopen.c"),
+        allst, blk, ool_guard_auto = _c_block_statements(os.path.join(repo, "src", "c", "cdlopen.c"),
                                          "static PyObject *ffi_dlclose(PyObject *self, PyObject *args)",
                                          "libhandle!=NULL")
         if not any(s[0] == "expr" and "".join(s[1]) == "libhandle=lib->l_libhandle" for s in allst):
@@ -136,8 +138,11 @@ def translate_close_paths(repo):
                    "Definition ool_close : list cstep := [ %s ].\n"
                    "Definition ool_fetch_checks_first : bool := %s.\n"
                    "Definition inline_checks_first : bool := %s.\n"
+                   "Definition backend_close_guard_auto : bool := %s.\n"
+                   "Definition ool_close_guard_auto : bool := %s.\n"
                    % ("; ".join(inline), "; ".join(backend), "; ".join(ool),
-                      "true" if ool_first else "false", "true" if inline_first else "false"))
+                      "true" if ool_first else "false", "true" if inline_first else "false",
+                      "true" if backend_guard_auto else "false", "true" if ool_guard_auto else "false"))
 
 
 def regen(ctx):
@@ -214,10 +219,11 @@ def gen_history(rng, desc, desc_id):
             ops.append(["call", l, f, rand_val(rng, lo, hi, f < nf and desc["vars"][desc["fns"][f][1]][0].endswith("*"))])
         else:
             ops.append(["const", l, nc + rng.randrange(2) if undecl else rng.randrange(nc)])
-    return dict(desc_id=desc_id, desc=desc, m0=m0, modes=modes, ops=ops, fresh_ffi=rng.random() < 0.2)
+    return dict(desc_id=desc_id, desc=desc, m0=m0, modes=modes, ops=ops, fresh_ffi=rng.random() < 0.2,
+                from_handle=[rng.random() < 0.35 for _ in modes])
 
 
-def directed(desc, desc_id, mode):
+def directed(desc, desc_id, mode, from_handle=False):
     """touch everything, close, touch everything again, close again, touch again"""
     nv, nf, nc = len(desc["vars"]), len(desc["fns"]), len(desc["consts"])
     every = []
@@ -230,7 +236,7 @@ def directed(desc, desc_id, mode):
     other = [["read", 1, 0], ["fetch", 1, 0] if desc.get("libc") else ["call", 1, 0, 1]]
     ops = every[: len(every) // 2] + [["close", 0]] + every + other + [["close", 0]] + every + [["close", 1]] + other
     return dict(desc_id=desc_id, desc=desc, m0=[0] * nv, modes=[mode, "ool" if mode == "inline" else "inline"],
-                ops=ops, fresh_ffi=False)
+                ops=ops, fresh_ffi=False, from_handle=[from_handle, False])
 
 
 def generate(ctx):
@@ -242,6 +248,8 @@ def generate(ctx):
         desc = gen_desc(rng) if d < ndesc else libc_desc(rng)
         cases.append(directed(desc, d, "inline"))
         cases.append(directed(desc, d, "ool"))
+        cases.append(directed(desc, d, "inline", True))
+        cases.append(directed(desc, d, "ool", True))
         for _ in range(per):
             cases.append(gen_history(rng, desc, d))
     return cases
@@ -292,7 +300,8 @@ def c_out(o):
 
 def c_case(case):
     return cpair(c_desc(case["desc"]), clist([cz(z) for z in case["m0"]]),
-                 clist(["Inline" if m == "inline" else "Ool" for m in case["modes"]]),
+                 clist(["(%s, %s)" % ("Inline" if m == "inline" else "Ool", "false" if fh else "true")
+                        for m, fh in zip(case["modes"], case.get("from_handle") or [False] * len(case["modes"]))]),
                  clist([c_op(o) for o in case["ops"]]))
 
 
@@ -467,6 +476,8 @@ def evaluate(ctx, cases):
             ctx.nontrivial((case["desc"], case["modes"], case["ops"]))
         ctx.hist("ops", len(case["ops"]))
         ctx.hist("libs", ",".join(sorted(case["modes"])))
+        for m, fh in zip(case["modes"], case.get("from_handle") or [False] * len(case["modes"])):
+            ctx.hist("lib_object", m + (" from a void* handle" if fh else " from a file name"))
         ctx.hist("library", "libc (dlopen(None))" if case["desc"].get("libc") else
                  "own .so, guard RTLD_GLOBAL" if case["desc"].get("global_guard") else "own .so, guard local")
         ctx.hist("after_close_accesses", min(after, 20))
@@ -497,7 +508,8 @@ def run(ctx):
                        "first close aimed at closed libs, 4% undeclared names, 15% out-of-range values; plus a "
                        "directed history per library and mode touching every name before and after close. Half of the "
                        "libraries have their guard handle opened RTLD_GLOBAL (symbols resolvable through dlsym(NULL, ..) "
-                       "after a close); one extra library per run is the process itself (dlopen(None): libc's "
+                       "after a close); 35% of the lib objects are made from a caller-supplied `void *` handle (ffi.dlopen(handle cdata), "
+                       "auto_close = 0), in both modes; one extra library per run is the process itself (dlopen(None): libc's "
                        "optind/opterr and never-called libc functions). "
                        "Non-trivial = history with at least one access to a lib after its close; distinct by "
                        "(library, modes, ops). evaluations = operations executed on the implementation.")
